@@ -56,7 +56,9 @@ Definition corr (c : case) : bool :=
   let m := model c in
   ktab_eq (o_final m) (c_final c)
   && list_beq call_beq (o_calls_a m) (c_calls_a c) && list_beq call_beq (o_calls_b m) (c_calls_b c)
-  && Bool.eqb (o_ok_a m) (c_ok_a c) && Bool.eqb (o_ok_b m) (c_ok_b c).
+  && Bool.eqb (o_ok_a m) (c_ok_a c) && Bool.eqb (o_ok_b m) (c_ok_b c)
+  (* the later, undisturbed umount -all: deepest first, one umount(2) per line of the table *)
+  && ktab_eq (later_umount_all (c_final c)) (c_rest c).
 
 (* the property: the final table is one some serial order of the two commands produces; in
    particular no mountpoint ends up with two stacked mounts *)
@@ -66,7 +68,9 @@ Definition spec (c : case) (final : ktab) : bool :=
   ktab_eq final (serial_ab (c_k0 c) ca cb) || ktab_eq final (serial_ab (c_k0 c) cb ca).
 
 (* "... so one later umount fully unmounts the layer": unless a mountpoint carries two mounts,
-   the later umount leaves nothing behind *)
+   the later umount leaves nothing behind.  (The machine and the code do better: every line of
+   the table is unmounted, a stacked one twice -- C20_later_umount_all_empties_any; the
+   correspondence below holds the code to that, the property asks only for this.) *)
 Definition later_ok (final rest : ktab) : bool :=
   has_dup final || match rest with [] => true | _ => false end.
 
